@@ -36,6 +36,8 @@ def _callbacks(log):
         a = i % M
         for k in ks:
             a = (a * 17 + k) % M
+        # the list belongs to the callback: editing it must not leak into any other call
+        ks.append(("self", i)); ks.reverse()
         return a
 
     return enter, leave
@@ -64,7 +66,7 @@ class Trav(Suite):
 
     def cases(self, rng, tier, widen):
         out = []
-        reps = 4 if tier == "quick" and not widen else 14
+        reps = 12 if tier == "quick" and not widen else 30
         k = 0
         for n in gen.sizes(tier, widen):
             for _ in range(reps):
@@ -74,7 +76,11 @@ class Trav(Suite):
                 if numbering == "root0":
                     pids = gen.renumber_root0(rng, pids)
                 nn = len(pids)
-                root = 0 if rng.random() < 0.4 else rng.randrange(nn)
+                root = 0 if rng.random() < 0.3 else rng.randrange(nn)
+                if root != 0 and rng.random() < 0.75:
+                    inner = sorted({p for p in pids if p > 0})          # non-root nodes that have children
+                    if inner:
+                        root = rng.choice(inner)
                 api = rng.choice(["swc_utils", "tree", "node"])
                 out.append({"class": f"{shape}/{numbering}/{api}", "n": nn, "pids": pids, "root": root, "api": api})
         if tier == "thorough" and not widen:
